@@ -29,8 +29,8 @@ type lcEvent struct {
 
 func TestC05LeastConnections(t *testing.T) {
 	const openKey = keyLC
-	sub := lab.Sub("lc-model", "rapid histories (5..60 events of start/finish(j)/eject/recover/add/remove, pool 1..8, in half of the cases with drawn non-uniform weights 0..10) against lb.ServeHTTP with every backend parking its "+
-		"requests in the L1 fake network, virtual time; half of the cases start from a drawn in-flight vector (each from {0,1,2,3,5,6,99,100,101,500}) set through Backend.IncrementConnections; "+
+	sub := lab.Sub("lc-model", "rapid histories (5..60 events of start/finish(j)/eject/recover/add/remove, pool 1..8, in half of the cases with drawn non-uniform weights 0..10) against lb.ServeHTTP with every backend holding its "+
+		"requests (before answering, after the response head or mid-body, drawn per backend) in the L1 fake network, virtual time; half of the cases start from a drawn in-flight vector (each from {0,1,2,3,5,6,99,100,101,500}) set through Backend.IncrementConnections; "+
 		"oracle after every start: the request arrived at an eligible backend whose in-flight count was minimal among eligible backends; "+
 		"non-trivial = at least one start with >=2 eligible backends whose in-flight counts were not all equal")
 	sub.NontrivialFloor(0.6)
@@ -83,7 +83,9 @@ func TestC05LeastConnections(t *testing.T) {
 				}
 			}()
 			for i := 0; i < n0; i++ {
-				p.fn.Set(lab.BackendHost(i), lab.Park)
+				// where an in-flight request is held: before the backend answers, after its response head, or mid-body
+				// (a download, an event stream): it is in flight in all three
+				p.fn.Set(lab.BackendHost(i), rapid.SampledFrom([]lab.Behaviour{lab.Park, lab.Park, lab.ParkHead, lab.ParkMidBody}).Draw(rt, "park_phase"))
 			}
 			if preload {
 				for i := 0; i < n0; i++ {
@@ -225,7 +227,7 @@ func TestC05LeastConnections(t *testing.T) {
 					if err != nil {
 						rt.Fatalf("harness: %v", err)
 					}
-					p.fn.Set(name+".test", lab.Park)
+					p.fn.Set(name+".test", rapid.SampledFrom([]lab.Behaviour{lab.Park, lab.ParkHead, lab.ParkMidBody}).Draw(rt, "park_phase_added"))
 					evs = append(evs, lcEvent{K: "add"})
 				case len(p.names) > 1:
 					// remove a backend that has nothing parked (its in-flight requests would finish
